@@ -1917,6 +1917,83 @@ package analysis
 //@   loop 8: modifies map s.allSchemas, map s.allOfs, map s.references.schemas, map s.references.responses, map s.references.parameters, map s.references.items, map s.references.headerItems, map s.references.parameterItems, map s.references.allRefs, map s.references.pathItems, map s.patterns.parameters, map s.patterns.headers, map s.patterns.items, map s.patterns.schemas, map s.patterns.allPatterns, map s.enums.parameters, map s.enums.headers, map s.enums.items, map s.enums.schemas, map s.enums.allEnums
 //@   loop 9: modifies map s.allSchemas, map s.allOfs, map s.references.schemas, map s.references.responses, map s.references.parameters, map s.references.items, map s.references.headerItems, map s.references.parameterItems, map s.references.allRefs, map s.references.pathItems, map s.patterns.parameters, map s.patterns.headers, map s.patterns.items, map s.patterns.schemas, map s.patterns.allPatterns, map s.enums.parameters, map s.enums.headers, map s.enums.items, map s.enums.schemas, map s.enums.allEnums
 
+// BEGIN auth (generated by /verif/tools/gen_auth.py)
+//@ ofun inSecs(reqs []map[string][]string, n string) bool = exists i in 0..len(reqs) :: n in dom(reqs[i])
+//@ fun opSecs(s *Spec, n string) bool = exists p in dom(docPaths(s)) :: exists M string :: opAtM(docPaths(s)[p], M) != nil && inSecs(opAtM(docPaths(s)[p], M).Security, n)
+//@ fun wfAuth(s *Spec) bool = forall n string :: (n in dom(s.authSchemes)) <==> (inSecs(s.spec.Security, n) || opSecs(s, n))
+
+//@ func (s *Spec) analyzeOperation(method, path, op)
+//@   aspect auth
+//@   requires s != nil && idxMaps(s) && opsWF(s)
+//@   modifies map s.operations, heap map[string]*spec.Operation, map s.consumes, map s.produces, map s.authSchemes, map s.allSchemas, map s.allOfs, map s.references.schemas, map s.references.responses, map s.references.parameters, map s.references.items, map s.references.headerItems, map s.references.parameterItems, map s.references.allRefs, map s.references.pathItems, map s.patterns.parameters, map s.patterns.headers, map s.patterns.items, map s.patterns.schemas, map s.patterns.allPatterns, map s.enums.parameters, map s.enums.headers, map s.enums.items, map s.enums.schemas, map s.enums.allEnums
+//@   ensures opsWF(s) && (forall n string :: old(n in dom(s.authSchemes)) ==> n in dom(s.authSchemes))
+//@   ensures op != nil ==> forall n string :: inSecs(op.Security, n) ==> n in dom(s.authSchemes)
+//@   ensures (forall n in dom(s.authSchemes) :: old(n in dom(s.authSchemes)) || (op != nil && inSecs(op.Security, n)))
+//@   loop 1: modifies map s.consumes
+//@   loop 2: modifies map s.produces
+//@   loop 3: modifies map s.authSchemes
+//@   loop 4: modifies map s.authSchemes
+//@   loop 5: modifies heap spec.Parameter, map s.allSchemas, map s.allOfs, map s.references.schemas, map s.references.responses, map s.references.parameters, map s.references.items, map s.references.headerItems, map s.references.parameterItems, map s.references.allRefs, map s.patterns.parameters, map s.patterns.headers, map s.patterns.items, map s.patterns.schemas, map s.patterns.allPatterns, map s.enums.parameters, map s.enums.headers, map s.enums.items, map s.enums.schemas, map s.enums.allEnums
+//@   loop 6: modifies heap spec.Response, map s.allSchemas, map s.allOfs, map s.references.schemas, map s.references.responses, map s.references.parameters, map s.references.items, map s.references.headerItems, map s.references.parameterItems, map s.references.allRefs, map s.patterns.parameters, map s.patterns.headers, map s.patterns.items, map s.patterns.schemas, map s.patterns.allPatterns, map s.enums.parameters, map s.enums.headers, map s.enums.items, map s.enums.schemas, map s.enums.allEnums
+//@   loop 3: invariant (forall n string :: old(n in dom(s.authSchemes)) ==> n in dom(s.authSchemes))
+//@   loop 3: invariant forall i in 0..idx :: forall n in dom(op.Security[i]) :: n in dom(s.authSchemes)
+//@   loop 3: invariant (forall n in dom(s.authSchemes) :: old(n in dom(s.authSchemes)) || (exists i in 0..idx :: n in dom(op.Security[i])))
+//@   loop 4: invariant (forall n string :: old(n in dom(s.authSchemes)) ==> n in dom(s.authSchemes))
+//@   loop 4: invariant forall i in 0..idx3 - 1 :: forall n in dom(op.Security[i]) :: n in dom(s.authSchemes)
+//@   loop 4: invariant forall n in seen :: n in dom(s.authSchemes)
+//@   loop 4: invariant (forall n in dom(s.authSchemes) :: old(n in dom(s.authSchemes)) || (exists i in 0..idx3 - 1 :: n in dom(op.Security[i])) || n in seen)
+//@   loop 4: invariant forall n in seen :: n in dom(ss)
+//@   loop 5: invariant opsWF(s) && (forall n string :: old(n in dom(s.authSchemes)) ==> n in dom(s.authSchemes)) && (forall n string :: inSecs(op.Security, n) ==> n in dom(s.authSchemes)) && (forall n in dom(s.authSchemes) :: old(n in dom(s.authSchemes)) || inSecs(op.Security, n))
+//@   loop 6: invariant opsWF(s) && (forall n string :: old(n in dom(s.authSchemes)) ==> n in dom(s.authSchemes)) && (forall n string :: inSecs(op.Security, n) ==> n in dom(s.authSchemes)) && (forall n in dom(s.authSchemes) :: old(n in dom(s.authSchemes)) || inSecs(op.Security, n))
+
+//@ func (s *Spec) analyzeOperations(path, pi)
+//@   aspect auth
+//@   requires s != nil && pi != nil && idxMaps(s) && opsWF(s)
+//@   modifies heap spec.Parameter, map s.operations, heap map[string]*spec.Operation, map s.consumes, map s.produces, map s.authSchemes, map s.allSchemas, map s.allOfs, map s.references.schemas, map s.references.responses, map s.references.parameters, map s.references.items, map s.references.headerItems, map s.references.parameterItems, map s.references.allRefs, map s.references.pathItems, map s.patterns.parameters, map s.patterns.headers, map s.patterns.items, map s.patterns.schemas, map s.patterns.allPatterns, map s.enums.parameters, map s.enums.headers, map s.enums.items, map s.enums.schemas, map s.enums.allEnums
+//@   ensures opsWF(s) && (forall n string :: old(n in dom(s.authSchemes)) ==> n in dom(s.authSchemes))
+//@   ensures forall M string :: opAtM(*pi, M) != nil ==> forall n string :: inSecs(opAtM(*pi, M).Security, n) ==> n in dom(s.authSchemes)
+//@   ensures (forall n in dom(s.authSchemes) :: old(n in dom(s.authSchemes)) || (exists M string :: opAtM(*pi, M) != nil && inSecs(opAtM(*pi, M).Security, n)))
+//@   loop 1: modifies heap spec.Parameter, map s.allSchemas, map s.allOfs, map s.references.schemas, map s.references.responses, map s.references.parameters, map s.references.items, map s.references.headerItems, map s.references.parameterItems, map s.references.allRefs, map s.patterns.parameters, map s.patterns.headers, map s.patterns.items, map s.patterns.schemas, map s.patterns.allPatterns, map s.enums.parameters, map s.enums.headers, map s.enums.items, map s.enums.schemas, map s.enums.allEnums
+//@   loop 1: invariant opsWF(s) && (forall n string :: old(n in dom(s.authSchemes)) ==> n in dom(s.authSchemes)) && (forall M string :: opAtM(*pi, M) != nil ==> forall n string :: inSecs(opAtM(*pi, M).Security, n) ==> n in dom(s.authSchemes)) && (forall n in dom(s.authSchemes) :: old(n in dom(s.authSchemes)) || (exists M string :: opAtM(*pi, M) != nil && inSecs(opAtM(*pi, M).Security, n)))
+
+//@ func (s *Spec) initialize()
+//@   aspect auth
+//@   requires s != nil && s.spec != nil && idxMaps(s) && opsWF(s) && (forall n string :: !(n in dom(s.authSchemes)))
+//@   modifies heap spec.Parameter, heap spec.PathItem, map s.operations, heap map[string]*spec.Operation, map s.consumes, map s.produces, map s.authSchemes, map s.allSchemas, map s.allOfs, map s.references.schemas, map s.references.responses, map s.references.parameters, map s.references.items, map s.references.headerItems, map s.references.parameterItems, map s.references.allRefs, map s.references.pathItems, map s.patterns.parameters, map s.patterns.headers, map s.patterns.items, map s.patterns.schemas, map s.patterns.allPatterns, map s.enums.parameters, map s.enums.headers, map s.enums.items, map s.enums.schemas, map s.enums.allEnums
+//@   ensures wfAuth(s)
+//@   loop 1: modifies map s.consumes
+//@   loop 2: modifies map s.produces
+//@   loop 3: modifies map s.authSchemes
+//@   loop 4: modifies map s.authSchemes
+//@   loop 5: modifies heap spec.Parameter, heap spec.PathItem, map s.operations, heap map[string]*spec.Operation, map s.consumes, map s.produces, map s.authSchemes, map s.allSchemas, map s.allOfs, map s.references.schemas, map s.references.responses, map s.references.parameters, map s.references.items, map s.references.headerItems, map s.references.parameterItems, map s.references.allRefs, map s.references.pathItems, map s.patterns.parameters, map s.patterns.headers, map s.patterns.items, map s.patterns.schemas, map s.patterns.allPatterns, map s.enums.parameters, map s.enums.headers, map s.enums.items, map s.enums.schemas, map s.enums.allEnums
+//@   loop 6: modifies map s.allSchemas, map s.allOfs, map s.references.schemas, map s.references.responses, map s.references.parameters, map s.references.items, map s.references.headerItems, map s.references.parameterItems, map s.references.allRefs, map s.references.pathItems, map s.patterns.parameters, map s.patterns.headers, map s.patterns.items, map s.patterns.schemas, map s.patterns.allPatterns, map s.enums.parameters, map s.enums.headers, map s.enums.items, map s.enums.schemas, map s.enums.allEnums
+//@   loop 7: modifies map s.allSchemas, map s.allOfs, map s.references.schemas, map s.references.responses, map s.references.parameters, map s.references.items, map s.references.headerItems, map s.references.parameterItems, map s.references.allRefs, map s.references.pathItems, map s.patterns.parameters, map s.patterns.headers, map s.patterns.items, map s.patterns.schemas, map s.patterns.allPatterns, map s.enums.parameters, map s.enums.headers, map s.enums.items, map s.enums.schemas, map s.enums.allEnums
+//@   loop 8: modifies map s.allSchemas, map s.allOfs, map s.references.schemas, map s.references.responses, map s.references.parameters, map s.references.items, map s.references.headerItems, map s.references.parameterItems, map s.references.allRefs, map s.references.pathItems, map s.patterns.parameters, map s.patterns.headers, map s.patterns.items, map s.patterns.schemas, map s.patterns.allPatterns, map s.enums.parameters, map s.enums.headers, map s.enums.items, map s.enums.schemas, map s.enums.allEnums
+//@   loop 9: modifies map s.allSchemas, map s.allOfs, map s.references.schemas, map s.references.responses, map s.references.parameters, map s.references.items, map s.references.headerItems, map s.references.parameterItems, map s.references.allRefs, map s.references.pathItems, map s.patterns.parameters, map s.patterns.headers, map s.patterns.items, map s.patterns.schemas, map s.patterns.allPatterns, map s.enums.parameters, map s.enums.headers, map s.enums.items, map s.enums.schemas, map s.enums.allEnums
+//@   loop 3: invariant forall i in 0..idx :: forall n in dom(s.spec.Security[i]) :: n in dom(s.authSchemes)
+//@   loop 3: invariant forall n in dom(s.authSchemes) :: exists i in 0..idx :: n in dom(s.spec.Security[i])
+//@   loop 4: invariant forall i in 0..idx3 - 1 :: forall n in dom(s.spec.Security[i]) :: n in dom(s.authSchemes)
+//@   loop 4: invariant forall n in seen :: n in dom(s.authSchemes) && n in dom(ss)
+//@   loop 4: invariant forall n in dom(s.authSchemes) :: (exists i in 0..idx3 - 1 :: n in dom(s.spec.Security[i])) || n in seen
+//@   loop 5: invariant opsWF(s)
+//@   loop 5: invariant forall p in seen :: p in dom(docPaths(s))
+//@   loop 5: invariant forall n string :: inSecs(s.spec.Security, n) ==> n in dom(s.authSchemes)
+//@   loop 5: invariant forall p in seen :: forall M string :: opAtM(docPaths(s)[p], M) != nil ==> forall n string :: inSecs(opAtM(docPaths(s)[p], M).Security, n) ==> n in dom(s.authSchemes)
+//@   loop 5: invariant forall n in dom(s.authSchemes) :: inSecs(s.spec.Security, n) || (exists p in seen :: exists M string :: opAtM(docPaths(s)[p], M) != nil && inSecs(opAtM(docPaths(s)[p], M).Security, n))
+//@   loop 6: invariant wfAuth(s)
+//@   loop 7: invariant wfAuth(s)
+//@   loop 8: invariant wfAuth(s)
+//@   loop 9: invariant wfAuth(s)
+
+//@ func (s *Spec) RequiredSecuritySchemes()
+//@   aspect auth
+//@   requires s != nil && s.spec != nil && wfAuth(s)
+//@   modifies nothing
+//@   ensures forall n string :: inStrs(result, n) <==> (inSecs(s.spec.Security, n) || opSecs(s, n))
+//@   ensures forall i in 0..len(result) :: forall j in 0..len(result) :: i != j ==> result[i] != result[j]
+
+// END auth
+
 // ---- lookups against the operations index (C14); wfOps(s) is established by initialize (ops aspect)
 
 //@ func (s *Spec) AllPaths()
